@@ -1072,7 +1072,8 @@ def clip(a, a_min=None, a_max=None, out=None):
     --------
     numpy.clip : Equivalent NumPy function
     """
-    a = asCOO(a, name="clip")
+    if not isinstance(a, SparseArray):
+        a = asCOO(a, name="clip")
     return a.clip(a_min, a_max, out=out)
 
 
